@@ -255,7 +255,7 @@ def check_c13(tier, seed):
                 'selection, multi-client settings, formal types); C13Law is a TLC invariant; each case is built with the '
                 'real Builder under a 30 s watchdog and success/failure, exception family (raised by a raise statement in '
                 'dznpy with a library error type) and the exact file set are compared. Random models x random '
-                'configurations are validated by ShellTrace.tla.')
+                'configurations are validated by ShellTrace.tla. Fault kinds added later: empty encapsulee name, ambiguity through an enclosing scope or an interface-local extern, empty multi-client settings, a release event that is an out-event or the claim event; the fault-free members are also built for unusual Dezyne file names (no hang, no internal error).')
     res = chk.tlc('ShellCases', 'ShellCases_faults.cfg')
     cases = res.emitted()
     chk.sample({k: cases[10][k] for k in ('fault', 'base', 'outcome', 'cfg')})
@@ -323,7 +323,7 @@ def check_c07(tier, seed):
                 'of another kind, every spelling (simple, partially, fully qualified, via a sibling) and every referring '
                 'scope; C07Law (build ok iff exactly one declaration of the right kind on the chain) is a TLC invariant; '
                 'each case is built and the declaration the generated shell is bound to compared with the model. All '
-                'find_fqn calls made by the builder are validated by ScopingTrace.tla.')
+                'find_fqn calls made by the builder are validated by ScopingTrace.tla. Shadowing shapes (decoy interface A.B.A.I0, same-named externs/interfaces in sibling namespaces, an injected port declared first) are compiled against a type-distinct model header with static_asserts on the accessor types.')
     lookups_all = []
     for mode in ('port-type', 'formal-type', 'claim-enum'):
         res = chk.tlc('ShellCases', f'ShellCases_{mode}.cfg')
